@@ -58,8 +58,13 @@ SelVecs == {[k |-> "select", dep |-> DepOf(dk), a |-> t, text |-> DepText(DepOf(
 
 \* version constraints
 Ops == {<<LT, LT>>, <<LT, EQ>>, <<EQ>>, <<GT, EQ>>, <<GT, GT>>, <<LT>>, <<GT>>, <<EQ, EQ>>, <<>>}
+\* digit runs at and beyond the machine integer widths: 1.<2^64-1>-1, 1.<2^64>-1, 1.<2^64+1>-1, 1.<10^20-1>-1, 1.<2^63>-1
+Dg(d) == [i \in 1..Len(d) |-> 48 + d[i]]
+BigRuns == {<<49, 46>> \o Dg(r) \o <<45, 49>> : r \in {<<1,8,4,4,6,7,4,4,0,7,3,7,0,9,5,5,1,6,1,5>>, <<1,8,4,4,6,7,4,4,0,7,3,7,0,9,5,5,1,6,1,6>>,
+                                                       <<1,8,4,4,6,7,4,4,0,7,3,7,0,9,5,5,1,6,1,7>>, <<9,9,9,9,9,9,9,9,9,9,9,9,9,9,9,9,9,9,9,9>>,
+                                                       <<9,2,2,3,3,7,2,0,3,6,8,5,4,7,7,5,8,0,8>>}}
 VerTexts == {<<49, 46, 48>>, <<49, 46, 48, 48>>, <<49, 46, 48, 45, 48>>, <<49, 46, 48, 126, 114, 99, 49>>, <<49, 46, 48, 43, 98, 49>>,
-             <<50, 58, 48, 46, 49>>, <<48>>, <<49, 46, 48, 45, 49>>, <<57>>, <<49, 48>>}
+             <<50, 58, 48, 46, 49>>, <<48>>, <<49, 46, 48, 45, 49>>, <<57>>, <<49, 48>>} \cup BigRuns
 BadN == {<<>>, <<97, 98, 99>>, <<49, 32, 48>>, <<45, 49, 58, 48>>, <<49, 46, 48, 95, 120>>}
 SatVecs == {[k |-> "sat", op |-> op, n |-> n, v |-> Classify(v).v] : op \in Ops, n \in VerTexts \cup BadN, v \in VerTexts}
 
